@@ -33,6 +33,8 @@ class Recorder:
     def translate(self, msgid, domain=None, mapping=None, context=None, target_language=None, default=None):
         if isinstance(msgid, str):
             self.tcalls.append((msgid, dict(mapping) if mapping else None, default, domain, context, target_language))
+        elif isinstance(msgid, C.Msg):
+            self.tcalls.append(("<msg>", dict(mapping) if mapping else None, default, domain, context, target_language))
         return C.tf_result(self.variant, msgid, mapping, default)
 
     def __init__(self, vf, names):
@@ -157,6 +159,9 @@ class Replayer:
         self.p = p
         self.names = names
         self.vf = C.ValueFactory(DEFAULT_MARKER)
+        # perm // 1000: line endings of the compiled sources (0 LF, 1 CRLF, 2 CR); expectations are those of the LF text
+        self.eol = {0: "\n", 1: "\r\n", 2: "\r"}[perm // 1000]
+        perm = perm % 1000
         self.c = (concretizer or C.concretize)(p, perm)
         self.rec = Recorder(self.vf, names)
         self.sites = site_of_calls(p)
@@ -170,10 +175,10 @@ class Replayer:
         self.compile_error = None
         self.libs = []
         try:
-            self.t = PageTemplate(self.c.source, on_error_handler=self.rec.handler, **self.options)
+            self.t = PageTemplate(self.c.source.replace("\n", self.eol), on_error_handler=self.rec.handler, **self.options)
             self.t.cook_check()
             for src in self.c.srcs[1:]:
-                lt = PageTemplate(src, on_error_handler=self.rec.handler, **self.options)
+                lt = PageTemplate(src.replace("\n", self.eol), on_error_handler=self.rec.handler, **self.options)
                 lt.cook_check()
                 self.libs.append(lt)
         except Exception as e:      # compile-time failure
@@ -307,12 +312,23 @@ def _check_failure(self, rec, err):
             for txt in {info["text"], src_text}:
                 start = txt.find(ex)
                 while ex and start >= 0:
-                    cands.append(self.c.linecol(info["offset"] + start, info.get("tmpl", 0)))
+                    # the named part is a whole sub-expression: it starts at the beginning, after a type prefix,
+                    # after "${" or after "|", and ends at the end, before "}" or before "|"
+                    before, after = txt[:start].rstrip(), txt[start + len(ex):].lstrip()
+                    if (before == "" or before.endswith((":", "${", "|"))) and (after == "" or after.startswith(("}", "|"))):
+                        cands.append(self.c.linecol(info["offset"] + start, info.get("tmpl", 0)))
                     start = txt.find(ex, start + 1)
+            if ex not in (info["text"], src_text) and os.environ.get("VERIF_EXLOG"):
+                open(os.environ["VERIF_EXLOG"], "a").write(repr((ex, info["text"], src_text)) + "\n")
             tag = ""
             if site["i"] in self.filler_items():
                 # failure inside a slot filler (recorded deviation of C12, if listed)
                 tag = "KNOWN[FillerErrorMisattributed] "
+            if not tag and any(k[0] == site["i"] and k[1] == site["s"] and v.get("encoded", v["text"]) != v["text"]
+                               for k, v in self.c.sites.items()):
+                # the statement value contains a character entity: token texts / positions refer to the decoded value
+                # (recorded deviation of C12, if listed; same root cause as the C11 finding expr-define-after-entity)
+                tag = "KNOWN[EntityShiftsToken] "
             if not cands:
                 return tag + "message names expression %r, failing expression is %r" % (ex, info["text"])
             if (int(ln), int(col)) not in cands:
